@@ -250,3 +250,38 @@ func HarnessC17Routing(L int) {
 	}
 	verifCheckf(len(errs) == len(want), "filter-key-checked-with-the-wrong-syntax", keys[k])
 }
+
+// HarnessC17TwoFilters: the same pattern text written under two filter keys of
+// two events (a path filter and a ref filter, either one first; or two ref
+// filters): every occurrence gets the verdict of its own key's syntax — the
+// glob rule keeps no verdict from one filter to the next.
+func HarnessC17TwoFilters(L int) {
+	pat := verifSymString("pat", L)
+	pairs := [][2]string{{"paths", "branches"}, {"branches", "paths"}, {"paths-ignore", "tags"}, {"tags-ignore", "paths"}, {"branches", "tags"}}
+	pr := pairs[verifChoose("pair", len(pairs))]
+	s := yScalar
+	f1, f2 := s(pat), s(pat)
+	doc := yDoc(yMap(s("on"), yMap(
+		s("push"), yMap(s(pr[0]), ySeq(f1)),
+		s("pull_request"), yMap(s(pr[1]), ySeq(f2)),
+	), s("jobs"), yMap(s("j"), yMap(s("runs-on"), s("ubuntu-latest"), s("steps"), ySeq(yMap(s("run"), s("echo")))))))
+	verifPlace(doc, 1, 0)
+	errs := verifLintNode(doc, []Rule{NewRuleGlob()})
+	want := func(key string) int {
+		if key == "paths" || key == "paths-ignore" {
+			return len(ValidatePathGlob(pat))
+		}
+		return len(ValidateRefGlob(pat))
+	}
+	n1, n2 := 0, 0
+	for _, e := range errs {
+		if e.Line == f1.Line {
+			n1++
+		}
+		if e.Line == f2.Line {
+			n2++
+		}
+	}
+	verifReach("checked")
+	verifCheckf(n1 == want(pr[0]) && n2 == want(pr[1]), "filter-key-checked-with-the-wrong-syntax", pr[0]+" + "+pr[1])
+}
